@@ -9,7 +9,7 @@
     Printer into every later parse) cannot be repaired — a pinned test depends on it — and is characterised
     exactly: C12_math_capture_refuted, C12_parse_after_equal_iff. *)
 From Coq Require Import String Ascii List Bool Arith.
-From LC Require Import GlobalDefs GlobalProofs GlobalHistoryProofs.
+From LC Require Import GlobalDefs GlobalProofs GlobalHistoryProofs GlobalRound6Proofs.
 From LCGen Require GlobalSites.
 Import ListNotations.
 Local Open Scope string_scope.
@@ -398,3 +398,40 @@ Theorem C12_unreset_member_refuted :
   results nat nat cls (fun _ => 0) body (fun _ => 0) [1; 0] <> map (fresh_result nat nat cls (fun _ => 0) body) [1; 0].
 Proof. exact GlobalHistoryProofs.unreset_member_refuted. Qed.
 Print Assumptions C12_unreset_member_refuted.
+
+(** ** 10. Proof depth round 6: composition of histories and when the flag forgets where it started *)
+
+(** running h1 then h2 is running h2 from the flag h1 left *)
+Theorem C12_flag_after_app : forall g0 h1 h2,
+  flag_after g0 (h1 ++ h2) = flag_after (flag_after g0 h1) h2.
+Proof. exact GlobalRound6Proofs.flag_after_app. Qed.
+Print Assumptions C12_flag_after_app.
+
+Theorem C12_last_decisive_app : forall h1 h2,
+  last_decisive (h1 ++ h2) = match last_decisive h2 with Some b => Some b | None => last_decisive h1 end.
+Proof. exact GlobalRound6Proofs.last_decisive_app. Qed.
+Print Assumptions C12_last_decisive_app.
+
+(** the flag after a history is independent of the initial value IFF the history contains a decisive (non-Keep) call *)
+Theorem C12_flag_after_forgets_initial_iff : forall h,
+  flag_after true h = flag_after false h <-> last_decisive h <> None.
+Proof. exact GlobalRound6Proofs.flag_after_forgets_initial_iff. Qed.
+Print Assumptions C12_flag_after_forgets_initial_iff.
+
+(** a suffix with a decisive call erases the initial value and every prefix *)
+Theorem C12_flag_after_suffix_decides : forall h2 b, last_decisive h2 = Some b ->
+  forall g0 g0' h1 h1', flag_after g0 (h1 ++ h2) = b /\ flag_after g0 (h1 ++ h2) = flag_after g0' (h1' ++ h2).
+Proof. exact GlobalRound6Proofs.flag_after_suffix_decides. Qed.
+Print Assumptions C12_flag_after_suffix_decides.
+
+(** ... and so does every parse that follows it *)
+Theorem C12_parse_after_suffix_decides : forall h2 b, last_decisive h2 = Some b ->
+  forall g0 g0' h1 h1' doc, parse_after g0 (h1 ++ h2) doc = parse_after g0' (h1' ++ h2) doc.
+Proof. exact GlobalRound6Proofs.parse_after_suffix_decides. Qed.
+Print Assumptions C12_parse_after_suffix_decides.
+
+(** a history of any length without printModel / xmlKeepBlanksDefault(0) never turns the flag off *)
+Theorem C12_flag_stays_on_without_clear : forall h,
+  Forall (fun o => effect o <> SetF) h -> flag_after true h = true.
+Proof. exact GlobalRound6Proofs.flag_stays_on_without_clear. Qed.
+Print Assumptions C12_flag_stays_on_without_clear.
